@@ -282,10 +282,10 @@ fn mk_entry<T: Writeable>(name: &'static str, ty: Type, val: &T, mism: &mut Vec<
 fn build_fx(seed: u64, n_pool: usize) -> Fx {
 	let mut p = Prng::new(seed ^ 0xF1C5);
 	// header pool: mostly the minimum edge bits, a mix of larger ones (header size = 247 + edge_bits)
-	let choices: [u8; 8] = [10, 10, 10, 11, 12, 13, 15, 17];
+	let choices: [u8; 8] = [10, 10, 10, 11, 11, 12, 13, 14];
 	let mut ebs: Vec<u8> = (0..n_pool).map(|_| *p.pick(&choices)).collect();
 	// the first few are fixed so that named fixtures are stable
-	let fixed: [u8; 12] = [10, 11, 10, 13, 19, 10, 12, 10, 15, 10, 10, 17];
+	let fixed: [u8; 12] = [10, 11, 10, 13, 16, 10, 12, 10, 15, 10, 10, 14];
 	for (i, e) in fixed.iter().enumerate() {
 		if i < ebs.len() {
 			ebs[i] = *e;
@@ -400,7 +400,7 @@ fn build_fx(seed: u64, n_pool: usize) -> Fx {
 		&mut mism,
 	));
 	entries.push(mk_entry("Header", Type::Header, &pool[0], &mut mism));
-	entries.push(mk_entry("HeaderEb19", Type::Header, &pool[4], &mut mism));
+	entries.push(mk_entry("HeaderEb16", Type::Header, &pool[4], &mut mism));
 	entries.push(mk_entry("GetBlock", Type::GetBlock, &hash_a, &mut mism));
 	entries.push(mk_entry("GetCompactBlock", Type::GetCompactBlock, &hash_b, &mut mism));
 	entries.push(mk_entry("TransactionKernel", Type::TransactionKernel, &hash_c, &mut mism));
@@ -1193,6 +1193,8 @@ fn run_listen_job(fx: &Arc<Fx>, job: &Job, listener: &TcpListener, att_path: Pat
 	let deadline = Instant::now() + Duration::from_millis(total_delay + 20_000);
 	let mut stalled = false;
 	let mut timed_out = false;
+	let mut dropped = false;
+	let _ = client.set_read_timeout(Some(Duration::from_millis(1)));
 	thread::scope(|s| {
 		let sd = &sender_done;
 		let cl = &client;
@@ -1203,6 +1205,15 @@ fn run_listen_job(fx: &Arc<Fx>, job: &Job, listener: &TcpListener, att_path: Pat
 		let mut done_at: Option<Instant> = None;
 		loop {
 			if state.lock().unwrap().out.is_some() {
+				break;
+			}
+			// the reader thread shuts the socket down when it gives up on the connection
+			let mut one = [0u8; 1];
+			if let Ok(0) = client.peek(&mut one) {
+				// final look: the handler may have finished just before the shutdown
+				if state.lock().unwrap().out.is_none() {
+					dropped = true;
+				}
 				break;
 			}
 			if done_at.is_none() && sender_done.load(Ordering::SeqCst) {
@@ -1239,7 +1250,13 @@ fn run_listen_job(fx: &Arc<Fx>, job: &Job, listener: &TcpListener, att_path: Pat
 		}),
 		Some(Err((item, event, what))) => Out::Fail { item, event, what },
 		None => {
-			if stalled {
+			if dropped {
+				Out::Fail {
+					item,
+					event: "connection_dropped".into(),
+					what: "the conn::listen reader thread shut the connection down before delivering the remaining messages".into(),
+				}
+			} else if stalled {
 				Out::Stall {
 					item,
 					what: "conn::listen reader did not deliver the remaining messages within 5 s after the whole stream was written".into(),
@@ -1533,7 +1550,7 @@ fn gen_jobs(fx: &Arc<Fx>, seed: u64, scale: u32) -> (Vec<Job>, Vec<Group>) {
 		g.plain("PingMax"),
 		g.plain("PeerAddrs1"),
 	];
-	let hdr = vec![g.plain("Header"), Item::Headers(vec![1, 2]), g.plain("HeaderEb19"), g.plain("Ping")];
+	let hdr = vec![g.plain("Header"), Item::Headers(vec![1, 2]), g.plain("HeaderEb16"), g.plain("Ping")];
 	let tx = vec![g.plain("Transaction"), g.plain("KernelSegment"), g.plain("Pong")];
 	let blk = vec![g.plain("BlockTx"), g.plain("Ping")];
 	let cblk = vec![g.plain("CompactBlockTx"), g.plain("OutputSegment"), g.plain("Pong")];
@@ -1547,16 +1564,16 @@ fn gen_jobs(fx: &Arc<Fx>, seed: u64, scale: u32) -> (Vec<Job>, Vec<Group>) {
 	let short_sets: Vec<(&str, Vec<Item>, Vec<usize>)> = vec![
 		("ctl-a", ctl_a.clone(), pick_v(&[0, 1, 2, 3])),
 		("ctl-b", ctl_b, pick_v(&[0, 1, 2, 3])),
-		("hdr", hdr.clone(), pick_v(&[0, 3])),
+		("hdr", hdr.clone(), pick_v(&[0, 1, 2, 3])),
 		("unk", unk.clone(), pick_v(&[0, 1, 2, 3])),
-		("att100", att100, pick_v(&[0, 3])),
-		("att0", att0, pick_v(&[1, 3])),
-		("att1", att1, pick_v(&[2, 3])),
+		("att100", att100, pick_v(&[0, 1, 2, 3])),
+		("att0", att0, pick_v(&[0, 1, 2, 3])),
+		("att1", att1, pick_v(&[0, 1, 2, 3])),
 		("tx", tx.clone(), pick_v(&[0, 1, 2, 3])),
-		("blk", blk, pick_v(&[1, 2])),
-		("cblk", cblk, pick_v(&[0, 3])),
-		("pibd", pibd, pick_v(&[0, 2])),
-		("stem", stem, pick_v(&[1])),
+		("blk", blk, pick_v(&[0, 1, 2, 3])),
+		("cblk", cblk, pick_v(&[0, 1, 2, 3])),
+		("pibd", pibd, pick_v(&[0, 1, 2, 3])),
+		("stem", stem, pick_v(&[1, 2])),
 		("big", big, pick_v(&[3])),
 	];
 	let mut short_streams: Vec<Arc<Stream>> = vec![];
@@ -1573,6 +1590,12 @@ fn gen_jobs(fx: &Arc<Fx>, seed: u64, scale: u32) -> (Vec<Job>, Vec<Group>) {
 				}
 			} else {
 				g.exhaustive1(&st);
+				if scale >= 2 {
+					// second pass with back-to-back fragments (coalescing race instead of a pause)
+					for c in 1..st.bytes.len() {
+						g.push(&st, "exhaustive1_nogap", vec![c], vec![], 0, false, None);
+					}
+				}
 			}
 			short_streams.push(st);
 		}
@@ -1679,7 +1702,7 @@ fn gen_jobs(fx: &Arc<Fx>, seed: u64, scale: u32) -> (Vec<Job>, Vec<Group>) {
 			// every single split point of a 33-header list: whole stream in thorough, the
 			// regions around the batch boundary and both ends in quick
 			if n == 33 && pi == 0 && scale >= 1 {
-				if scale >= 2 {
+				if scale >= 1 {
 					g.exhaustive1(&st);
 				} else {
 					let len = st.bytes.len();
@@ -1782,8 +1805,8 @@ fn gen_jobs(fx: &Arc<Fx>, seed: u64, scale: u32) -> (Vec<Job>, Vec<Group>) {
 	// ---- random sequences of 1-12 messages, random multi-splits with delays
 	let n_rand = match scale {
 		0 => 60,
-		1 => 1500,
-		_ => 15000,
+		1 => 5000,
+		_ => 40000,
 	};
 	let n_entries = fx.entries.len();
 	for r in 0..n_rand {
@@ -1820,7 +1843,7 @@ fn gen_jobs(fx: &Arc<Fx>, seed: u64, scale: u32) -> (Vec<Job>, Vec<Group>) {
 		}
 		let vi = p.usize_below(4);
 		let st = mk_stream(fx, &format!("rnd{}", r), vi, items);
-		let listen = scale >= 1 && r % 10 == 9;
+		let listen = scale >= 1 && r % 10 == 9 && st.items.iter().any(|i| !matches!(i, Item::Unknown(_, _)));
 		let class = "random_seq";
 		let k = 1 + p.usize_below(12);
 		let cuts = rand_cuts(&mut p, st.bytes.len(), k);
@@ -2318,6 +2341,7 @@ fn parent_limits(run: &Run, scale: u32) {
 	let mut max_consumed_refused = 0u64;
 	let mut max_alloc_refused = 0u64;
 	let mut max_alloc_count = 0u64;
+	let mut below: Vec<(String, String)> = vec![];
 	for line in stdout.lines() {
 		if let Some(j) = line.strip_prefix("CASE ") {
 			if let Ok(v) = serde_json::from_str::<Value>(j) {
@@ -2380,12 +2404,28 @@ fn parent_limits(run: &Run, scale: u32) {
 				for x in vs {
 					let s = x[0].as_str().unwrap_or("?");
 					let w = x[1].as_str().unwrap_or("");
+					if s.contains("class=count_below_content;event=message_yielded") {
+						below.push((s.to_string(), format!("{} {}", ty, bd)));
+						continue;
+					}
 					run.violation(s, &format!("{} [{} {} {} len={}]", w, class, ty, bd, v["len"]), v.clone());
 				}
 			}
 		} else if line.starts_with("WORKER-DONE") {
 			done = true;
 		}
+	}
+	if !below.is_empty() {
+		below.sort();
+		let cases: Vec<String> = below.iter().map(|(_, c)| c.clone()).collect();
+		run.violation(
+			&below[0].0,
+			&format!(
+				"frames whose item count is smaller than the items present in the (within-limit) body are read as messages, the trailing bytes are ignored (codec::decode_message does not check that the decoder used the whole body): {}",
+				cases.join("; ")
+			),
+			json!({"cases": cases}),
+		);
 	}
 	run.set_max("refusal_max_bytes_consumed", max_consumed_refused);
 	run.set_max("refusal_max_single_allocation", max_alloc_refused);
